@@ -147,6 +147,9 @@ struct ReplayFile {
     /// corpus id -> spec, for the proofs the steps use
     corpus: Vec<(usize, Spec)>,
     steps: Vec<Step>,
+    /// class and detail of the finding this file reproduces
+    class: String,
+    detail: String,
     violation: Violation,
     #[serde(default)]
     unminimised_steps: usize,
@@ -176,13 +179,13 @@ fn replay_steps(n: usize, specs: &[(usize, Spec)], params: &PoolParams, steps: &
     (v, log)
 }
 
-fn minimise(world: &FakeWorld, out: &RunOutput, v: &Violation) -> Vec<Step> {
-    let class = v.class.clone();
+fn minimise(world: &FakeWorld, out: &RunOutput, class: &str, prefix: &str) -> Vec<Step> {
+    let class = class.to_string();
     let params = out.params.pool.clone();
     let mut fails = |cand: &[Step]| -> bool {
         let mut be = FakeBackend { w: world, pool: None };
         let (vv, _, _) = des::replay(&mut be, &params, cand, false);
-        vv.map(|x| x.class == class).unwrap_or(false)
+        vv.and_then(|x| x.for_prefix(prefix).map(|f| f.0 == class)).unwrap_or(false)
     };
     if !fails(&out.steps) {
         // the violation needs the surrounding service state to reproduce from steps alone: keep as is
@@ -295,13 +298,20 @@ fn main() {
         }
         match v {
             Some(v) => {
-                println!("replayed: class={} at_step={} {}", v.class, v.at_step, v.detail);
-                if v.class == rf.violation.class {
-                    println!("VIOLATION property={} replay={path}", v.property);
+                for (c, d) in &v.findings {
+                    println!("replayed: at_step={} class={c} {d}", v.at_step);
+                }
+                if v.findings.iter().any(|(c, _)| *c == rf.class) {
+                    println!("VIOLATION property={} replay={path}", rf.property);
                     std::process::exit(EXIT_VIOLATION);
                 }
-                println!("replay produced a different violation class than recorded ({})", rf.violation.class);
-                std::process::exit(EXIT_VIOLATION);
+                if v.for_prefix(classes_of(&rf.property)).is_some() {
+                    println!("replay produced a different violation class of the same property than recorded ({})", rf.class);
+                    println!("VIOLATION property={} replay={path}", rf.property);
+                    std::process::exit(EXIT_VIOLATION);
+                }
+                println!("replay: the recorded finding ({}) does not occur on this tree; other properties' findings above", rf.class);
+                std::process::exit(EXIT_OK);
             }
             None => {
                 println!("replay: no violation on this tree");
@@ -335,7 +345,7 @@ fn main() {
             let out = des::run(&mut be, world, params, rseed, keep_logs);
             (n, rseed, out)
         },
-        |(_, _, out)| out.violation.as_ref().map(|v| v.class.starts_with(prefix)).unwrap_or(false),
+        |(_, _, out)| out.violation.as_ref().map(|v| v.for_prefix(prefix).is_some()).unwrap_or(false),
     );
 
     if keep_logs {
@@ -345,7 +355,7 @@ fn main() {
                 println!("  {l}");
             }
             if let Some(v) = &out.violation {
-                println!("  VIOL {} {}", v.class, v.at_step);
+                println!("  VIOL {:?} {}", v.classes(), v.at_step);
             }
         }
         std::process::exit(EXIT_OK);
@@ -353,6 +363,7 @@ fn main() {
 
     let mut tot = Totals { runs: 0, events: 0, steps: 0, sim_ns: 0, probes: Counters::default(), fired: Counters::default(), states: HashSet::new(), triples: HashSet::new(), histories: HashSet::new(), nontrivial: HashSet::new(), fault_free_runs: 0, foreign: Counters::default(), cost: HashMap::new(), samples: vec![] };
     let mut first_violation: Option<(u64, usize, u64, &RunOutput, Violation)> = None;
+    let _ = &first_violation;
     for (run, (n, rseed, out)) in &results {
         tot.runs += 1;
         tot.events += out.events as u64;
@@ -380,12 +391,14 @@ fn main() {
             tot.samples.push(json!({"run": run, "seed": rseed, "n_leaves": n, "pool": out.params.pool, "faults": out.params.faults, "first_steps": out.steps.iter().take(14).collect::<Vec<_>>()}));
         }
         if let Some(v) = &out.violation {
-            if v.class.starts_with(prefix) {
+            if v.for_prefix(prefix).is_some() {
                 if first_violation.is_none() {
                     first_violation = Some((*run, *n, *rseed, out, v.clone()));
                 }
             } else {
-                tot.foreign.inc(&v.class);
+                for c in v.classes() {
+                    tot.foreign.inc(&c);
+                }
             }
         }
     }
@@ -423,29 +436,30 @@ fn main() {
     if let Some((run, n, rseed, out, v)) = &first_violation {
         violations = 1;
         let world = &worlds[*n - 1];
-        let min_steps = minimise(world, out, v);
+        let (class, detail) = v.for_prefix(prefix).cloned().unwrap();
+        let min_steps = minimise(world, out, &class, prefix);
         let ids = used_ids(&min_steps);
         let corpus: Vec<(usize, Spec)> = ids.iter().map(|i| (*i, world.specs[*i].clone())).collect();
         // replay the minimised file from scratch; it must fail the same way
         let (vv, _) = replay_steps(*n, &corpus, &out.params.pool, &min_steps, false);
         let (steps, vfinal) = match vv {
-            Some(x) if x.class == v.class => (min_steps, x),
+            Some(x) if x.for_prefix(prefix).map(|f| f.0 == class).unwrap_or(false) => (min_steps, x),
             _ => (out.steps.clone(), v.clone()),
         };
+        let (class, detail) = vfinal.for_prefix(prefix).cloned().unwrap_or((class, detail));
         let ids = used_ids(&steps);
         let corpus: Vec<(usize, Spec)> = ids.iter().map(|i| (*i, world.specs[*i].clone())).collect();
-        let rf = ReplayFile { property: property.clone(), sim: "pool".into(), mode: "fake".into(), seed, run: *run, params: out.params.pool.clone(), corpus, steps, violation: vfinal.clone(), unminimised_steps: out.steps.len() };
-        std::fs::create_dir_all("/verif/replays").ok();
-        replay_path = format!("/verif/replays/{property}-{rseed}.json");
+        let rf = ReplayFile { property: property.clone(), sim: "pool".into(), mode: "fake".into(), seed, run: *run, params: out.params.pool.clone(), corpus, steps, class: class.clone(), detail: detail.clone(), violation: vfinal.clone(), unminimised_steps: out.steps.len() };
+        replay_path = format!("{}/{property}-{rseed}.json", qpz_core::replay_dir());
         std::fs::write(&replay_path, serde_json::to_string_pretty(&rf).unwrap()).unwrap();
-        println!("violation class={} run={run} seed={rseed}: {}", vfinal.class, vfinal.detail);
+        println!("violation class={class} run={run} seed={rseed} steps={} (from {}): {detail}", rf.steps.len(), out.steps.len());
         println!("VIOLATION property={property} replay={replay_path}");
         exit = EXIT_VIOLATION;
     } else if property == "C19" {
         if let Some(msg) = &cost_violation {
             violations = 1;
-            std::fs::create_dir_all("/verif/replays").ok();
-            replay_path = format!("/verif/replays/C19-cost-{seed}.json");
+            
+            replay_path = format!("{}/C19-cost-{seed}.json", qpz_core::replay_dir());
             std::fs::write(&replay_path, serde_json::to_string_pretty(&json!({"property": "C19", "sim": "pool", "class": "admit:cost", "seed": seed, "detail": msg, "cost": cost_report, "how_to_replay": "re-run the C19 check with the same VERIF_SEED; the class medians are measured over the whole batch"})).unwrap()).unwrap();
             println!("violation class=admit:cost: {msg}");
             println!("VIOLATION property=C19 replay={replay_path}");
@@ -497,7 +511,7 @@ fn main() {
         wall_s: wall,
         violations,
     };
-    ev.write(&format!("/verif/evidence/{property}.json")).unwrap_or_else(|e| harness_error(&format!("cannot write evidence: {e}")));
+    ev.write(&qpz_core::evidence_path(&property)).unwrap_or_else(|e| harness_error(&format!("cannot write evidence: {e}")));
     println!("runs={} events={} ops={} states={} nontrivial_histories={} wall={:.1}s foreign={:?}", tot.runs, tot.events, tot.steps, tot.states.len(), tot.nontrivial.len(), wall, tot.foreign.0);
     std::process::exit(exit);
 }
